@@ -1,6 +1,9 @@
 """C15 - issue reporting coherent across services (specs/Logger, specs/Services, lib/LoggerObs)."""
 
 
+import vlib
+
+
 def run(ctx):
     ctx.mc("Logger", "MC_Logger.tla", "MC_Logger.cfg", workers=4)
     scen = ctx.gen("Services", "Services.tla", "Gen_C15.cfg" if ctx.quick else "Gen_C15_thorough.cfg", "svc", workers=4)
@@ -13,9 +16,15 @@ def run(ctx):
     open(es, "w").write('{"sweep":"enums"}\n')
     tr = ctx.execute("enums", es, shards=1)
     ctx.validate("Services", "Trace_Services.tla", "Trace_C15.cfg", tr, "enums", parallel=1)
+    # the repository's own test suite, built with the hook on: every logger operation of every test replayed on the Logger model
+    ss = vlib.suite_scenarios(os.path.join(ctx.work, "suite.scen.ndjson"))
+    ctx.sample(ss, 2)
+    tr = ctx.execute("suite", ss)
+    ctx.validate("Services", "Trace_Services.tla", "Trace_C15.cfg", tr, "suite", parallel=4)
     ctx.cov["distinct_nontrivial"] = ctx.cov["traces_validated_against_impl"]
     ctx.finish("model_checking",
                "every sequence of %d service calls (parse strict/permissive, validate, analyse, generate, print, resolve, flatten, assignIds, lookup; fresh and reused instances) "
                "over a pool of 19 documents (valid, invalid, garbage, foreign, 1.x, every import fault); each call: hook-level logger operations replayed on the Logger model, "
-               "public-getter observation coherent, failing result explained; non-trivial = distinct call sequences" % (2 if ctx.quick else 3),
+               "public-getter observation coherent, failing result explained; plus every test of the repository's own suite run with the hook on (one trace per test, hook-level operations only); "
+               "non-trivial = distinct call sequences" % (2 if ctx.quick else 3),
                ["hook LIBCELLML_VERIF in logger.cpp reports every change of an issue list", "TLC decides every event"])
